@@ -23,6 +23,12 @@ FILES = ["c14_gittree_test.go"]
 SIZEMAX = 48
 
 
+def scaled(n):
+    """VERIF_SCALE (default 1) scales the number of scenarios run against the real code; for
+    self-tests on an overloaded machine only, the registered tiers use 1."""
+    return max(10, int(n * float(os.environ.get("VERIF_SCALE") or 1)))
+
+
 def text(cps):
     return "".join(chr(c) for c in cps)
 
@@ -91,7 +97,7 @@ def run(ctx):
         raise vk.Inconclusive("too few reader scripts: %d" % len(cat_scripts))
     all_repo, all_cat = len(repo_scripts), len(cat_scripts)
     rnd = random.Random(ctx.seed)
-    nr, nc = ctx.pick(40, 300), ctx.pick(200, all_cat)
+    nr, nc = scaled(ctx.pick(40, 300)), scaled(ctx.pick(200, all_cat))
     if len(repo_scripts) > nr:
         repo_scripts = rnd.sample(repo_scripts, nr)
     if len(cat_scripts) > nc:
@@ -108,7 +114,7 @@ def run(ctx):
     for want, flag in (("gogit", "true"), ("catfile", "false")):
         runs.append(("replay_" + want, "^TestVerif_C14_Replay$", {"VERIF_IN": inp_repo, "ZOEKT_DISABLE_CATFILE_BATCH": flag}, want))
         runs.append(("random_" + want, "^TestVerif_C14_Random$", {"ZOEKT_DISABLE_CATFILE_BATCH": flag,
-                                                                   "C14_RANDOM": ctx.pick(40, 200)}, want))
+                                                                   "C14_RANDOM": scaled(ctx.pick(40, 200))}, want))
     runs.append(("catfile_reader", "^TestVerif_C14_Catfile$", {"VERIF_IN": inp_cat}, None))
     runs.append(("slab", "^TestVerif_C14_Slab$", {}, None))
     seen = {}
